@@ -98,7 +98,7 @@ pub struct ArmOpts {
 pub fn generate(arm: &str, seed: u64, o: ArmOpts) -> Scenario {
     let mut rng = Rng::new(seed);
     let mut trng = rng.fork(1);
-    let table = Table::generate(&mut trng, GenOpts { depth_free: o.depth_free, long_arcs: o.long_arcs, max_n: if o.large { 16 } else { 8 }, max_s: if o.large { 14 } else { 6 }, reconverge: o.reconverge, dom_friendly: o.force_dom == Some(true) || rng.chance(1, 3), few_dead_arcs: rng.chance(1, 3), knapsack_quarters: o.knapsack_quarters, top_merge_quarters: 1, abyss_one_in: if o.long_arcs || o.force_dom == Some(true) { 0 } else { 25 } });
+    let table = Table::generate(&mut trng, GenOpts { depth_free: o.depth_free, long_arcs: o.long_arcs, max_n: if o.large { 16 } else { 8 }, max_s: if o.large { 14 } else { 6 }, reconverge: o.reconverge, dom_friendly: o.force_dom == Some(true) || rng.chance(1, 3), few_dead_arcs: rng.chance(1, 3), knapsack_quarters: o.knapsack_quarters, top_merge_quarters: 1, abyss_one_in: if o.long_arcs || o.force_dom == Some(true) { 0 } else { 25 }, penalty_one_in: 12 });
     let dd = if o.force_pooled { Dd::Pooled } else { *rng.pick(&[Dd::Lel, Dd::Fc, Dd::Pooled]) };
     let cache = o.force_cache.unwrap_or_else(|| rng.chance(1, 2));
     // (the duplicate-free fringe is keyed on (state, depth) since the repair of D4: it is drawn for depth-free and long-arc models too)
@@ -123,6 +123,7 @@ pub fn generate(arm: &str, seed: u64, o: ArmOpts) -> Scenario {
         if let Some(opt) = inst.opt() {
             // witnesses: complete feasible solutions with their value
             let mut sols = full_solutions(&inst);
+            sols.retain(|(v, _)| *v > isize::MIN + (1 << 40)); // never a path that ends with a 'forbidden' (penalty) arc
             sols.sort_by_key(|(v, _)| std::cmp::Reverse(*v));
             let pickv = match rng.below(3) { 0 => opt, 1 => opt - 1, _ => opt - 1 - rng.below(4) as isize };
             // best witness not above pickv
@@ -142,7 +143,7 @@ pub fn full_solutions(inst: &Inst) -> Vec<(isize, Vec<(usize, isize)>)> {
     fn rec(inst: &Inst, l: usize, a: usize, v: isize, cur: &mut Vec<(usize, isize)>, out: &mut Vec<(isize, Vec<(usize, isize)>)>) {
         if out.len() > 5000 { return; }
         if l == inst.t.n { let mut s = cur.clone(); s.sort(); out.push((v, s)); return; }
-        for b in 0..inst.t.d { if let Some(x) = inst.t.next[l][a][b] { cur.push((inst.t.order[l], b as isize)); rec(inst, l + 1, x as usize, v + inst.t.cost[l][a][b], cur, out); cur.pop(); } }
+        for b in 0..inst.t.d { if let Some(x) = inst.t.next[l][a][b] { cur.push((inst.t.order[l], b as isize)); rec(inst, l + 1, x as usize, v.saturating_add(inst.t.cost[l][a][b]), cur, out); cur.pop(); } }
     }
     rec(inst, 0, 0, inst.t.v0, &mut vec![], &mut out);
     out
